@@ -21,7 +21,7 @@ class C06(Prop):
     design_ref = '§5 C06'
     rule = ('source kind x element count 0..8 x last-element-flagged x failing source x schedules of request(n) (n in 1,2,3,7,2^31-1), partial runs of 1..3 loop iterations, quiescence points '
             'and cancel; plus each source behind a RequestStreamResponder / channel with REQUEST_N frames arriving between iterations; non-trivial = credit arrives in at least two '
-            'instalments or is exhausted before the end; distinct = distinct case; collector: limit rate 1..5 / 2^31-1 x limit count none/1..12 x 0..9 elements x end (flagged element, COMPLETE, ERROR, none) x '
+            'instalments or is exhausted before the end; distinct = distinct case; bursts of 17..100 small grants that are all there before the producer runs once (direct calls and REQUEST_N frames in one read); collector: limit rate 1..5 / 2^31-1 x limit count none/1..12 x 0..9 elements x end (flagged element, COMPLETE, ERROR, none) x '
             'bursts of 1..4 frames per loop iteration, stream and channel; requester-side grants: Subscription.request(n) issued before / between / after the writes of a request frame of 1..8 fragments on a link that blocks in every write')
     assumptions = []
 
@@ -42,6 +42,15 @@ class C06(Prop):
             steps.append(['q'])
             out.append({'mode': 'direct', 'kind': kind, 'count': count, 'flagged': rng.random() < 0.5 and kind in ('gen', 'agen') and count > 0,
                         'failing': rng.random() < 0.15, 'steps': steps})
+        # bursts: many small grants that are all there before the producer runs once (one read carrying dozens of REQUEST_N frames)
+        for i in range(24 if tier == 'quick' else 400):
+            kind = sources.KINDS[i % len(sources.KINDS)]
+            k = rng.choice([17, 24, 40, 100])
+            out.append({'mode': 'direct', 'kind': kind, 'count': rng.choice([30, 60, 120]), 'flagged': False, 'failing': False,
+                        'steps': [['r', rng.choice([1, 1, 2])] for _ in range(k)] + [['q']] + [['r', 1], ['q']]})
+        for i in range(12 if tier == 'quick' else 200):
+            out.append({'mode': 'wire', 'kind': sources.KINDS[i % len(sources.KINDS)], 'count': rng.choice([30, 60]), 'flagged': False, 'failing': False,
+                        'channel': rng.random() < 0.4, 'n0': 1, 'more': [1] * rng.choice([17, 24, 40]), 'together': True})
         for _ in range(n // 3):
             out.append({'mode': 'wire', 'kind': rng.choice(sources.KINDS), 'count': rng.choice([0, 1, 3, 6]), 'flagged': False, 'failing': False,
                         'channel': rng.random() < 0.4, 'n0': rng.choice([1, 2, 3, 2 ** 31 - 1]), 'more': [rng.choice([1, 2, 5]) for _ in range(rng.randint(0, 3))]})
@@ -254,17 +263,25 @@ class C06(Prop):
         for n in case['more']:
             t.deliver(engine.build_frame({'ty': 'REQUEST_N', 'sid': 1, 'n': n}).serialize())
             credit += n
+            if not case.get('together'):
+                await loop.settle()
+                trace.append([credit, payloads()])
+        if case.get('together'):
             await loop.settle()
             trace.append([credit, payloads()])
+        errors = [engine.simnet_tok(e) for e in t.sent if isinstance(e[2], F.ErrorFrame)]
         completes = len([e for e in t.sent if isinstance(e[2], F.PayloadFrame) and e[2].flags_complete])
         await server.close()
-        return {'trace': trace, 'completes': completes}
+        return {'trace': trace, 'completes': completes, 'errors': errors}
 
     def model_lines(self, case, obs):
         if case['mode'] == 'grant':
             return []
         if case['mode'] == 'collector':
             return ['collect %d %s %s' % (case['L'], '-' if case['C'] is None else case['C'], ' '.join(self._collector_events(case)))]
+        if case['mode'] != 'direct' and case.get('together'):
+            ev = ['r%d' % case['n0'], 'q'] + ['r%d' % n for n in case['more']] + ['q']
+            return ['credit flagged=0 failing=0 count=%d %s' % (case['count'], ' '.join(ev))]
         if case['mode'] != 'direct':
             ev = ['r%d' % case['n0'], 'q'] + [x for n in case['more'] for x in ('r%d' % n, 'q')]
             return ['credit flagged=0 failing=0 count=%d %s' % (case['count'], ' '.join(ev))]
